@@ -35,7 +35,12 @@ cfg_select! {
     }
     feature = "verif" => {
         mod verif;
-        use std::sync::atomic::Ordering;
+        // everything the default branch's glob import brings in, minus the wrapped types
+        #[allow(unused_imports)]
+        use std::sync::atomic::{
+            AtomicBool, AtomicI32, AtomicI64, AtomicIsize, AtomicU8, AtomicU16, AtomicU32,
+            AtomicU64, Ordering, compiler_fence, fence,
+        };
         use verif::{AtomicPtr, AtomicUsize, UnsafeCell, hint, yield_now};
     }
     _ => {
